@@ -16,9 +16,10 @@ Ltac gen_bools := repeat match goal with
   end.
 Ltac enum_finish :=
   repeat match goal with x : _ |- _ => clear x end;
-  repeat match goal with x : bool |- _ => revert x end;
-  repeat match goal with x : pc |- _ => revert x end;
-  repeat first [apply fa_pc | apply fa_bool];
+  repeat match goal with
+  | x : bool |- _ => revert x; apply fa_bool
+  | x : pc |- _ => revert x; apply fa_pc
+  end;
   vm_compute; reflexivity.
 
 (* ---------------------------------------------------------------------------------------- *)
@@ -58,6 +59,7 @@ Definition o_will (o : option (bool * wsub)) (slot : bool) : bool :=
    take() in drop_contents, [r] = the registering side's pc *)
 Definition waker_inv (wk own : option (bool * wsub)) (r : pc) (reg waking slot notif parked : bool) : bool :=
   eqb reg (regging r)
+  && implb parked (match r with Idle => true | _ => false end)
   && implb (o_holds wk || o_holds own) (waking && negb reg)
   && negb (o_holds wk && o_holds own)
   && implb (waking && negb reg) (o_holds wk || o_holds own)
@@ -98,8 +100,18 @@ Proof.
   generalize (is_full 0 0 cap). intro. enum_finish.
 Qed.
 
+Ltac split_ifs2 :=
+  repeat match goal with
+  | |- context [if ?c then _ else _] =>
+      match c with
+      | context [?b] => is_var b; match type of b with bool => destruct b end
+      end; st_cbn
+  | |- context [if ?c then _ else _] => destruct c eqn:?; st_cbn;
+      repeat match goal with E : ?t = _ |- context [?t] => rewrite E end
+  | |- context [match ?x with _ => _ end] => destruct x eqn:?; st_cbn
+  end.
 Ltac wake_case :=
-  unfold do_wk, wake_step, reg_step, is_empty; st_cbn; split_ifs; gen_bools; enum_finish.
+  unfold do_wk, wake_step, reg_step, is_empty; st_cbn; split_ifs2; gen_bools; enum_finish.
 
 Lemma winv_r_pstep : forall cap s, cinv s = true -> winv_r s = true -> winv_r (pstep false cap s) = true.
 Proof.
@@ -107,4 +119,28 @@ Proof.
   unfold winv_r, pstep in *. st_cbn.
   revert H. apply implb_elim. revert HC. apply implb_elim.
   destruct_pc xppc; wake_case.
+Qed.
+
+Lemma winv_r_cstep : forall cap s, cinv s = true -> winv_r s = true -> winv_r (cstep false cap s) = true.
+Proof.
+  intros cap s HC H. rewrite cinv_is in HC. dst s. destruct xrw as [rr rk rs].
+  unfold winv_r, cstep in *. st_cbn.
+  revert H. apply implb_elim. revert HC. apply implb_elim.
+  destruct_pc xcpc; wake_case.
+Qed.
+
+Lemma winv_s_pstep : forall cap s, cinv s = true -> winv_s cap s = true -> winv_s cap (pstep false cap s) = true.
+Proof.
+  intros cap s HC H. rewrite cinv_is in HC. dst s. destruct xsw as [sr sk ss].
+  unfold winv_s, pstep in *. st_cbn.
+  revert H. apply implb_elim. revert HC. apply implb_elim.
+  destruct_pc xppc; wake_case.
+Qed.
+
+Lemma winv_s_cstep : forall cap s, cinv s = true -> winv_s cap s = true -> winv_s cap (cstep false cap s) = true.
+Proof.
+  intros cap s HC H. rewrite cinv_is in HC. dst s. destruct xsw as [sr sk ss].
+  unfold winv_s, cstep in *. st_cbn.
+  revert H. apply implb_elim. revert HC. apply implb_elim.
+  destruct_pc xcpc; wake_case.
 Qed.
